@@ -31,9 +31,9 @@ inductive Add where
   | host (host : List Nat)
   deriving Repr, DecidableEq
 
-/-- `AddZone`'s normalisation: trim one trailing ".", make sure there is a leading ".". -/
+/-- `AddZone`'s normalisation: trim one trailing ".", lower-case, make sure there is a leading ".". -/
 def normZone (zone : List Nat) : List Nat :=
-  let z := trimSuffixDot zone
+  let z := toLower (trimSuffixDot zone)
   if hasPrefix z [46] then z else 46 :: z
 
 /-- `AddNetwork` / `AddIP` / `AddZone` / `AddHost`. -/
@@ -41,7 +41,7 @@ def State.add (p : State) : Add → State
   | .network ip ones bits => { p with networks := p.networks ++ [(ip, ones, bits)] }
   | .ip ip => { p with ips := p.ips ++ [ip] }
   | .zone z => { p with zones := p.zones ++ [normZone z] }
-  | .host h => { p with hosts := p.hosts ++ [trimSuffixDot h] }
+  | .host h => { p with hosts := p.hosts ++ [toLower (trimSuffixDot h)] }
 
 def slash : Nat := 47
 def starDot : List Nat := [42, 46]
@@ -75,8 +75,9 @@ def dialerForRequest (p : State) (host : List Nat) (ip : Option (List Nat)) : Bo
     else if p.ips.any (fun b => ipEqual b ip) then true
     else false
   | none =>
-    -- `host = strings.TrimSuffix(host, ".")`: rules are stored without the dot of a rooted name
-    let host := trimSuffixDot host
+    -- `host = strings.ToLower(strings.TrimSuffix(host, "."))`: rules are stored lower-cased and
+    -- without the dot of a rooted name
+    let host := toLower (trimSuffixDot host)
     if p.zones.any (fun z => hasSuffix host z || host == z.drop 1) then true
     else if p.hosts.any (fun h => h == host) then true
     else false
